@@ -388,6 +388,9 @@ func (u *Unit) wf(s *State, t types.Type, v *Term) *Term {
 	switch ut := t.Underlying().(type) {
 	case *types.Basic:
 		if ut.Info()&types.IsInteger != 0 {
+			if w.IntBV {
+				return True
+			}
 			lo, hi, _ := intRange(ut)
 			return And(Le(lo, v), Le(v, hi))
 		}
@@ -578,6 +581,10 @@ func (u *Unit) constVal(c *ssa.Const) Value {
 			b, ok := new(bigInt).SetString(iv.ExactString(), 10)
 			if !ok {
 				u.unsup("integer constant %s", c.Value)
+			}
+			if w.IntBV {
+				bits, _ := intBits(ut)
+				return Value{T: bvLit(b, bits), Ty: t}
 			}
 			return Value{T: BigLit(b), Ty: t}
 		case ut.Info()&types.IsFloat != 0:
@@ -830,7 +837,7 @@ func (u *Unit) exec(s *State, f *Frame, in ssa.Instruction) []*State {
 		f.Vals[x] = Value{T: Sel(dt, x.Field, u.term(s, base)), Ty: x.Type()}
 		return nil
 	case *ssa.IndexAddr:
-		idx := u.term(s, u.val(s, f, x.Index))
+		idx := u.toInt(u.term(s, u.val(s, f, x.Index)), x.Index.Type())
 		base := u.val(s, f, x.X)
 		switch bt := x.X.Type().Underlying().(type) {
 		case *types.Slice:
@@ -858,7 +865,7 @@ func (u *Unit) exec(s *State, f *Frame, in ssa.Instruction) []*State {
 		}
 		return nil
 	case *ssa.Index:
-		idx := u.term(s, u.val(s, f, x.Index))
+		idx := u.toInt(u.term(s, u.val(s, f, x.Index)), x.Index.Type())
 		base := u.term(s, u.val(s, f, x.X))
 		switch bt := x.X.Type().Underlying().(type) {
 		case *types.Array:
@@ -882,8 +889,8 @@ func (u *Unit) exec(s *State, f *Frame, in ssa.Instruction) []*State {
 		u.execSlice(s, f, x)
 		return nil
 	case *ssa.MakeSlice:
-		ln := u.term(s, u.val(s, f, x.Len))
-		cp := u.term(s, u.val(s, f, x.Cap))
+		ln := u.toInt(u.term(s, u.val(s, f, x.Len)), x.Len.Type())
+		cp := u.toInt(u.term(s, u.val(s, f, x.Cap)), x.Cap.Type())
 		u.check(s, "make", in, "makeslice: len/cap out of range", And(Le(IntLit(0), ln), Le(ln, cp), Le(cp, Leaf("4611686018427387904", "Int"))))
 		u.allocCheck(s, in, cp)
 		elem := x.Type().Underlying().(*types.Slice).Elem()
@@ -1026,12 +1033,18 @@ func (u *Unit) execUnOp(s *State, f *Frame, x *ssa.UnOp) []*State {
 		v := u.term(s, u.val(s, f, x.X))
 		if isFloat(x.Type()) {
 			f.Vals[x] = Value{T: w.FNeg(v), Ty: x.Type()}
+		} else if w.IntBV {
+			f.Vals[x] = Value{T: App("bvneg", v.Sort, v), Ty: x.Type()}
 		} else {
 			f.Vals[x] = Value{T: u.wrapInt(s, x, Neg(v), x.Type()), Ty: x.Type()}
 		}
 		return nil
 	case token.XOR:
 		v := u.term(s, u.val(s, f, x.X))
+		if w.IntBV {
+			f.Vals[x] = Value{T: App("bvnot", v.Sort, v), Ty: x.Type()}
+			return nil
+		}
 		b := x.Type().Underlying().(*types.Basic)
 		_, signed := intBits(b)
 		if signed {
@@ -1133,6 +1146,8 @@ func (u *Unit) binop(s *State, in ssa.Instruction, op token.Token, a, b Value, r
 		case token.GEQ:
 			return Value{T: w.FCmp(">=", at, bt), Ty: rty}
 		}
+	case isInteger(ty) && w.IntBV:
+		return Value{T: u.bvBinop(s, in, op, at, bt, a.Ty, b.Ty, rty), Ty: rty}
 	case isInteger(ty):
 		switch op {
 		case token.ADD:
@@ -1371,15 +1386,15 @@ func (u *Unit) execSlice(s *State, f *Frame, x *ssa.Slice) {
 	base := u.val(s, f, x.X)
 	var lo, hi, mx *Term
 	if x.Low != nil {
-		lo = u.term(s, u.val(s, f, x.Low))
+		lo = u.toInt(u.term(s, u.val(s, f, x.Low)), x.Low.Type())
 	} else {
 		lo = IntLit(0)
 	}
 	if x.High != nil {
-		hi = u.term(s, u.val(s, f, x.High))
+		hi = u.toInt(u.term(s, u.val(s, f, x.High)), x.High.Type())
 	}
 	if x.Max != nil {
-		mx = u.term(s, u.val(s, f, x.Max))
+		mx = u.toInt(u.term(s, u.val(s, f, x.Max)), x.Max.Type())
 	}
 	switch bt := x.X.Type().Underlying().(type) {
 	case *types.Slice:
@@ -1439,6 +1454,8 @@ func (u *Unit) convert(s *State, in ssa.Instruction, v Value, from, to types.Typ
 	fb, fok := from.Underlying().(*types.Basic)
 	tb, tok := to.Underlying().(*types.Basic)
 	switch {
+	case fok && tok && fb.Info()&types.IsInteger != 0 && tb.Info()&types.IsInteger != 0 && w.IntBV:
+		return Value{T: u.bvConvert(u.term(s, v), fb, tb), Ty: to}
 	case fok && tok && fb.Info()&types.IsInteger != 0 && tb.Info()&types.IsInteger != 0:
 		t := u.term(s, v)
 		flo, fhi, _ := intRange(fb)
@@ -1543,6 +1560,13 @@ func isSliceOf(t types.Type, k types.BasicKind) bool {
 
 func (u *Unit) intToFloat(s *State, t *Term, fb, tb *types.Basic) *Term {
 	w := u.W
+	if isBVSort(t.Sort) && w.FM == FloatIEEE {
+		_, signed := intBits(fb)
+		if signed {
+			return App("(_ to_fp 11 53) RNE", "Float", t)
+		}
+		return App("(_ to_fp_unsigned 11 53) RNE", "Float", t)
+	}
 	switch w.FM {
 	case FloatIEEE:
 		bits, signed := intBits(fb)
@@ -1575,6 +1599,21 @@ func (u *Unit) intToFloat(s *State, t *Term, fb, tb *types.Basic) *Term {
 func (u *Unit) floatToInt(s *State, in ssa.Instruction, t *Term, tb *types.Basic) *Term {
 	w := u.W
 	bits, signed := intBits(tb)
+	if w.IntBV && w.FM == FloatIEEE {
+		bs := bvSort(bits)
+		r := u.fresh(s, "f2i", bs)
+		var bv, inRange *Term
+		if signed {
+			bv = App(fmt.Sprintf("(_ fp.to_sbv %d) RTZ", bits), bs, t)
+			inRange = And(App("fp.geq", "Bool", t, w.FConst(-math.Ldexp(1, int(bits-1)))), App("fp.lt", "Bool", t, w.FConst(math.Ldexp(1, int(bits-1)))))
+		} else {
+			bv = App(fmt.Sprintf("(_ fp.to_ubv %d) RTZ", bits), bs, t)
+			inRange = And(App("fp.gt", "Bool", t, w.FConst(-1)), App("fp.lt", "Bool", t, w.FConst(math.Ldexp(1, int(bits)))))
+		}
+		s.assume(Implies(inRange, Eq(r, bv)))
+		u.convNote(s, in, inRange)
+		return r
+	}
 	lo, hi, _ := intRange(tb)
 	r := u.fresh(s, "f2i", "Int")
 	s.assume(And(Le(lo, r), Le(r, hi)))
